@@ -138,6 +138,14 @@ pub fn build_cmd(c: &Value) -> Command {
     if !bytes_of(&c["long_flag"]).is_empty() {
         cmd = cmd.long_flag(s_of(&c["long_flag"]));
     }
+    for la in c["long_flag_aliases"].as_array().map(|a| a.to_vec()).unwrap_or_default() {
+        cmd = cmd.long_flag_alias(s_of(&la));
+    }
+    for sa in c["short_flag_aliases"].as_array().map(|a| a.to_vec()).unwrap_or_default() {
+        if let Some(c) = ch(&sa) {
+            cmd = cmd.short_flag_alias(c);
+        }
+    }
     if c["version"].as_bool().unwrap() {
         cmd = cmd.version("1.0");
     }
